@@ -521,7 +521,8 @@ class MacroProgram(ElementProgram):
         except KeyError:
             TARGET = skip
         else:
-            TARGET = lambda node: nodes.Define(  # noqa:  E731 do not assign a lambda expression, use a def
+            # (bind the clause now: the name is reused further down)
+            TARGET = lambda node, clause=clause: nodes.Define(  # noqa:  E731 do not assign a lambda expression, use a def
                 [nodes.Alias(["default"], "target_language")],
                 nodes.Target(clause, node)
             )
